@@ -395,7 +395,11 @@ unsafe fn exec(ctxs: &mut HashMap<String, Ctx>, sys: &str, words: &[&str]) -> St
             "obs" => {
                 // mask: "all" or a comma list of getter numbers; each named getter is called in turn
                 let list: Vec<usize> = if words[2] == "all" { (0..NGET).collect() } else { words[2].split(',').filter_map(|x| x.parse().ok()).collect() };
-                let v: Vec<String> = list.into_iter().map(|g| getter(c, g).replace(' ', "_")).collect();
+                // one line per answer: control characters (a committed '\n' ...) are escaped
+                let v: Vec<String> = list
+                    .into_iter()
+                    .map(|g| getter(c, g).chars().map(|ch| if ch == ' ' { "_".to_string() } else if ch.is_control() { format!("\\u{{{:x}}}", ch as u32) } else { ch.to_string() }).collect::<String>())
+                    .collect();
                 format!("O {}", v.join(" "))
             }
             _ => "R badop".into(),
@@ -462,7 +466,10 @@ struct Sup {
     child: Option<(Child, ChildStdin, Receiver<String>)>,
     limit: Duration,
     spawned: usize,
+    slow: usize,
+    errfile: String,
 }
+static SUP_SEQ: std::sync::atomic::AtomicUsize = std::sync::atomic::AtomicUsize::new(0);
 
 #[derive(Debug, Clone, PartialEq)]
 enum Ans {
@@ -473,14 +480,21 @@ enum Ans {
 
 impl Sup {
     fn new(limit_ms: u64) -> Sup {
-        Sup { child: None, limit: Duration::from_millis(limit_ms), spawned: 0 }
+        let k = SUP_SEQ.fetch_add(1, std::sync::atomic::Ordering::SeqCst);
+        Sup {
+            child: None,
+            limit: Duration::from_millis(limit_ms),
+            spawned: 0,
+            slow: 0,
+            errfile: format!("{}/capi-worker-{}-{}.err", std::env::temp_dir().display(), std::process::id(), k),
+        }
     }
     fn ensure(&mut self) {
         if self.child.is_some() {
             return;
         }
         let exe = std::env::current_exe().unwrap();
-        let errf = std::fs::File::create(format!("{}/capi-worker-{}.err", std::env::temp_dir().display(), std::process::id())).unwrap();
+        let errf = std::fs::File::create(&self.errfile).unwrap();
         let mut ch = Command::new(exe).arg("worker").arg(data_dir()).stdin(Stdio::piped()).stdout(Stdio::piped()).stderr(Stdio::from(errf)).spawn().expect("spawn worker");
         let stdin = ch.stdin.take().unwrap();
         let stdout = ch.stdout.take().unwrap();
@@ -511,7 +525,17 @@ impl Sup {
             }
         }
         let _ = stdin.flush();
-        match rx.recv_timeout(self.limit) {
+        let first = rx.recv_timeout(self.limit);
+        let first = match first {
+            Err(std::sync::mpsc::RecvTimeoutError::Timeout) => {
+                // no answer within the watchdog limit: the machine may just be busy - a hang is declared
+                // only when nothing arrives within ten more limits (a late answer is counted as slow)
+                self.slow += 1;
+                rx.recv_timeout(self.limit * 10)
+            }
+            x => x,
+        };
+        match first {
             Ok(l) => Ans::Line(l),
             Err(std::sync::mpsc::RecvTimeoutError::Timeout) => {
                 self.kill();
@@ -519,7 +543,7 @@ impl Sup {
             }
             Err(_) => {
                 let status = self.child.as_mut().map(|(c, _, _)| c.wait().map(|s| format!("{:?}", s)).unwrap_or_default()).unwrap_or_default();
-                let err = std::fs::read_to_string(format!("{}/capi-worker-{}.err", std::env::temp_dir().display(), std::process::id())).unwrap_or_default();
+                let err = std::fs::read_to_string(&self.errfile).unwrap_or_default();
                 // the first panic message (the abort that follows it in an extern "C" function is a consequence)
                 let ls: Vec<&str> = err.lines().collect();
                 let msg: String = ls
@@ -913,19 +937,21 @@ fn generate(tier: &str, out_path: &str) -> i32 {
             let mut stats = Stats { cases: 0, ops: 0, crashes: 0, hangs: 0, variants: 0, kinds: Default::default() };
             let mut fails = vec![];
             let mut n = t;
-            while n < cases {
+            while n < cases && stats.hangs < 2 {
                 let mut rng = Rng::new(seed.wrapping_mul(7_000_003).wrapping_add(n as u64));
                 check_case(&mut sup, &mut rng, n, &tier, &mut stats, &mut fails);
                 stats.cases += 1;
                 n += threads;
             }
             sup.kill();
-            (stats, fails, sup.spawned)
+            let _ = std::fs::remove_file(&sup.errfile);
+            (stats, fails, sup.spawned + 1000000 * sup.slow)
         }));
     }
     let mut total = Stats { cases: 0, ops: 0, crashes: 0, hangs: 0, variants: 0, kinds: Default::default() };
     let mut fails: Vec<Failure> = vec![];
     let mut spawned = 0;
+    let mut slow = 0;
     for h in handles {
         let (s, f, sp) = h.join().unwrap();
         total.cases += s.cases;
@@ -937,10 +963,11 @@ fn generate(tier: &str, out_path: &str) -> i32 {
             *total.kinds.entry(k).or_insert(0) += v;
         }
         fails.extend(f);
-        spawned += sp;
+        spawned += sp % 1000000;
+        slow += sp / 1000000;
     }
     let mut js = String::from("{");
-    let _ = write!(js, "\"cases\":{},\"ops\":{},\"variants\":{},\"crashes\":{},\"hangs\":{},\"workers_spawned\":{},", total.cases, total.ops, total.variants, total.crashes, total.hangs, spawned);
+    let _ = write!(js, "\"cases\":{},\"ops\":{},\"variants\":{},\"crashes\":{},\"hangs\":{},\"workers_spawned\":{},\"slow_answers\":{},", total.cases, total.ops, total.variants, total.crashes, total.hangs, spawned, slow);
     let kinds: Vec<String> = total.kinds.iter().map(|(k, v)| format!("\"{}\":{}", k, v)).collect();
     let _ = write!(js, "\"op_kinds\":{{{}}},\"failures\":[", kinds.join(","));
     for (i, f) in fails.iter().enumerate() {
@@ -963,7 +990,7 @@ fn replay(path: &str) -> i32 {
     let start = text.find("\"ops\"").and_then(|i| text[i..].find('[').map(|j| i + j + 1)).unwrap_or(0);
     let end = text[start..].find(']').map(|j| start + j).unwrap_or(text.len());
     let ops: Vec<String> = text[start..end].split("\",").map(|s| s.trim().trim_matches(|c| c == '"' || c == ',' || c == '\n' || c == ' ').replace("\\\"", "\"")).filter(|s| !s.is_empty()).collect();
-    let mut sup = Sup::new(20_000);
+    let mut sup = Sup::new(30_000);
     let mut i = 0;
     let mut bad = false;
     while i < ops.len() {
